@@ -1340,7 +1340,7 @@ NiShape* NifFile::CloneShape(NiShape* srcShape, const std::string& destShapeName
 	CloneChildren(destShape, srcNif);
 
 	// Geometry Data
-	auto destGeomData = hdr.GetBlock<NiTriBasedGeomData>(destShape->DataRef());
+	auto destGeomData = hdr.GetBlock<NiGeometryData>(destShape->DataRef());
 	if (destGeomData)
 		destShape->SetGeomData(destGeomData);
 
